@@ -2,6 +2,7 @@ package engine
 
 import (
 	"crypto/sha256"
+	"encoding/hex"
 	"fmt"
 	repocommon "github.com/nspcc-dev/neofs-contract/common"
 	"os"
@@ -55,6 +56,7 @@ type upCase struct {
 type UpGrid struct {
 	prev, cur int64
 	fake      [2]util.Uint160
+	only      string // if set: the cases of this contract only
 }
 
 func NewUpGrid() *UpGrid       { return &UpGrid{} }
@@ -87,6 +89,7 @@ func stubFor(target string) *Compiled {
 func (d *UpGrid) Build() *World {
 	d.prev, d.cur = repoVersions()
 	w := NewWorld(1)
+	w.NoScriptOverride = true // the deployed executables are old-version stubs; an override applies to the update's target
 	for _, t := range c16Targets {
 		w.Deploy(t, stubFor(t), nil)
 	}
@@ -134,6 +137,9 @@ func (d *UpGrid) Cases(tier string) []GridCase {
 		"nns":       {"names", "names-two-tlds"},
 	}
 	for _, c := range c16Targets {
+		if d.only != "" && c != d.only {
+			continue
+		}
 		dv := data[c]
 		if dv == nil {
 			dv = []string{"data"}
@@ -231,7 +237,7 @@ func (d *UpGrid) Eval(x *Exec, root *Node, gc GridCase) GridResult {
 		}
 	}
 	before := cur
-	nb, mb := CompileDir(Repo, c.Contract).Bytes()
+	nb, mb := updateTarget(c.Contract).Bytes()
 	data := d.updateData(c)
 	o := do("update", Script(h, "update", nb, mb, data))
 	inWindow := c.V >= d.prev && c.V < d.cur
@@ -295,7 +301,10 @@ func (d *UpGrid) Eval(x *Exec, root *Node, gc GridCase) GridResult {
 			}
 		}
 	}
-	return GridResult{Outcome: out, Nontrivial: inWindow, V: vs}
+	dg := DiffDumps(w.FullDump(before.L), w.FullDump(cur.L))
+	sort.Strings(dg)
+	sum := sha256.Sum256([]byte(strings.Join(dg, "\n") + "|" + o.Fault))
+	return GridResult{Outcome: out, Nontrivial: inWindow, V: vs, Digest: hex.EncodeToString(sum[:8])}
 }
 
 func (d *UpGrid) updateData(c upCase) []any {
